@@ -34,7 +34,7 @@ type GenOpts struct {
 }
 
 var dirPool = []string{"", "", "a", "a/b", "c", "a/b/d", "e"}
-var namePool = []string{"f0", "f1", "f2", "f3", "f4", "f5", "f6", "f7", "x", "x.dat", "lib.so", "data.bin"}
+var namePool = []string{"f0", "f1", "f2", "f3", "f4", "f5", "f6", "f7", "x", "x.dat", "lib.so", "data.bin", "F0", "X", "Data.bin"}
 
 func joinPath(d, n string) string {
 	if d == "" {
@@ -44,7 +44,7 @@ func joinPath(d, n string) string {
 }
 
 var edgeSizes = []int{
-	0, 0, 1, 2, 3, 16, 100, 4095, 4096, 8 * KiB, 8*KiB + 1, 32*KiB - 1, 32 * KiB, 32*KiB + 1,
+	0, 0, 1, 2, 3, 16, 100, 2048, 2049, 4095, 4096, 8 * KiB, 8*KiB + 1, 32*KiB - 1, 32 * KiB, 32*KiB + 1,
 	BlockSize - 1, BlockSize, BlockSize + 1, 2*BlockSize - 1, 2 * BlockSize, 2*BlockSize + 1,
 	3 * BlockSize, 3*BlockSize + 17, 128*KiB + 100,
 }
@@ -228,7 +228,7 @@ func editOffsets(rt *rapid.T, n int, label string) int {
 	}
 }
 
-var editLens = []int{1, 1, 2, 10, 100, 1000, 5000, BlockSize - 1, BlockSize, BlockSize + 1, 100 * KiB}
+var editLens = []int{1, 1, 2, 10, 100, 1000, 2049, 5000, BlockSize - 1, BlockSize, BlockSize + 1, 100 * KiB}
 
 // applyEdits applies k localized edits and returns the new content and the bytes introduced.
 func applyEdits(rt *rapid.T, data []byte, k int, label string) ([]byte, int, []string) {
@@ -305,7 +305,7 @@ func GenPair(rt *rapid.T, o GenOpts) *Pair {
 	for _, op := range oldFiles {
 		e := old[op]
 		label := "f"
-		act := rapid.IntRange(0, 16).Draw(rt, label+".op")
+		act := rapid.IntRange(0, 18).Draw(rt, label+".op")
 		if o.MidBias && act < 3 && rapid.Bool().Draw(rt, label+".forceedit") {
 			act = 3
 		}
@@ -388,6 +388,12 @@ func GenPair(rt *rapid.T, o GenOpts) *Pair {
 			if place(cp, e.Data, e.Exec, FileMeta{From: op, Identical: true, Op: "copy-of-patched"}) {
 				p.Ops = append(p.Ops, fmt.Sprintf("copy %s -> %s", op, cp))
 			}
+			if rapid.Bool().Draw(rt, label+".cp2") {
+				cp2 := freshPath(label + ".cp2")
+				if place(cp2, e.Data, e.Exec, FileMeta{From: op, Identical: true, Op: "copy-of-patched"}) {
+					p.Ops = append(p.Ops, fmt.Sprintf("copy %s -> %s", op, cp2))
+				}
+			}
 			var d []string
 			data, m.Introduced, d = applyEdits(rt, e.Data, 1, label)
 			m.Edits, m.Identical, m.Op = 1, false, fmt.Sprintf("edit(src of copy)%v", d)
@@ -411,6 +417,27 @@ func GenPair(rt *rapid.T, o GenOpts) *Pair {
 					p.Ops = append(p.Ops, fmt.Sprintf("splice %s + other -> %s (%d B)", op, np, len(sp)))
 				}
 			}
+		case 17: // split at a block boundary into two new files (original dropped or kept)
+			if nb := len(e.Data) / BlockSize; nb >= 2 {
+				cut := rapid.IntRange(1, nb-1).Draw(rt, label+".splitat") * BlockSize
+				pa, pb := freshPath(label+".splita"), freshPath(label+".splitb")
+				if place(pa, append([]byte{}, e.Data[:cut]...), false, FileMeta{From: op, Op: "split-head"}) {
+					p.Ops = append(p.Ops, fmt.Sprintf("split %s[:%d] -> %s", op, cut, pa))
+				}
+				if place(pb, append([]byte{}, e.Data[cut:]...), false, FileMeta{From: op, Op: "split-tail"}) {
+					p.Ops = append(p.Ops, fmt.Sprintf("split %s[%d:] -> %s", op, cut, pb))
+				}
+				if rapid.Bool().Draw(rt, label+".splitdrop") {
+					p.Ops = append(p.Ops, "delete(split source) "+op)
+					continue
+				}
+			}
+		case 18: // block-aligned halves swapped (blocks of the old file reused out of order)
+			if nb := len(e.Data) / BlockSize; nb >= 2 {
+				cut := rapid.IntRange(1, nb-1).Draw(rt, label+".swapat") * BlockSize
+				data = append(append([]byte{}, e.Data[cut:]...), e.Data[:cut]...)
+				m = FileMeta{From: op, Op: fmt.Sprintf("halves swapped at %d", cut)}
+			}
 		case 15: // replaced by unrelated content of another size
 			size := genSize(rt, o, label+".repl")
 			if size > MiB {
@@ -433,6 +460,26 @@ func GenPair(rt *rapid.T, o GenOpts) *Pair {
 		}
 		if dest != op || !m.Identical {
 			p.Ops = append(p.Ops, fmt.Sprintf("%s: %s -> %s", m.Op, op, dest))
+		}
+	}
+
+	// duplicates placed on old paths that the edit script vacated (their old content moved away or
+	// was deleted): a kept file A also appears at a path B that held something else
+	if !o.NoEdits && len(oldFiles) > 1 {
+		for _, vp := range oldFiles {
+			if _, taken := nw[vp]; taken {
+				continue
+			}
+			if rapid.IntRange(0, 2).Draw(rt, "duponto") != 0 {
+				continue
+			}
+			srcp := rapid.SampledFrom(oldFiles).Draw(rt, "dupontosrc")
+			if srcp == vp {
+				continue
+			}
+			if place(vp, old[srcp].Data, old[srcp].Exec, FileMeta{From: srcp, Identical: true, Op: "dup-onto-vacated"}) {
+				p.Ops = append(p.Ops, fmt.Sprintf("dup %s -> vacated %s", srcp, vp))
+			}
 		}
 	}
 
